@@ -167,7 +167,7 @@ def main(argv):
     n = 0
     try:
         for pid in props:
-            env = dict(os.environ, VERIF_SELFTEST_DIR=work)
+            env = dict(os.environ, VERIF_SELFTEST_DIR=work, VERIF_NO_ALT="1")      # (the second interpreter would record the same traces again)
             subprocess.run([os.path.join(VERIF, "bin", "check"), pid, "--tier", "quick"], env=env,
                            stdout=subprocess.DEVNULL, stderr=subprocess.DEVNULL)
             for fn in sorted(glob.glob(os.path.join(work, "%s-*.json" % pid))):
